@@ -29,11 +29,18 @@ Record meter := mkM {
   m_timeouts : N;   (* ... that returned a timeout error = idle deadlines waited out *)
   m_eofs : N;       (* ... that returned (0, EOF) *)
   m_writes : N;     (* Write calls *)
-  m_wbytes : N      (* bytes written *)
+  m_wbytes : N;     (* bytes handed to Write *)
+  m_wtimeouts : N   (* Write calls that ended in a timeout = write deadlines waited out *)
 }.
-Definition m0 : meter := mkM 0 0 0 0 0 0.
+Definition m0 : meter := mkM 0 0 0 0 0 0 0.
 
-Record conn := mkConn { c_segs : list bytes; c_term : term; c_m : meter }.
+(* c_room: how many more bytes the peer will take (None: it keeps reading).  A peer that has
+   stopped reading makes Write block; server.TimeoutConn arms the write deadline before every
+   Write (server/timeout_conn.go), so the Write returns a timeout error one deadline later.
+   c_wdead: the handler's buffered writer (bufio.Writer) has seen an error and drops everything
+   from then on. *)
+Record conn := mkConn5 { c_segs : list bytes; c_term : term; c_m : meter; c_room : option N; c_wdead : bool }.
+Definition mkConn (segs : list bytes) (t : term) (m : meter) : conn := mkConn5 segs t m None false.
 
 Definition nlen (l : bytes) : N := N.of_nat (length l).
 
@@ -42,7 +49,7 @@ Definition tick_read (m : meter) (z t e : bool) : meter :=
       (if z then m_zero m + 1 else m_zero m)
       (if t then m_timeouts m + 1 else m_timeouts m)
       (if e then m_eofs m + 1 else m_eofs m)
-      (m_writes m) (m_wbytes m).
+      (m_writes m) (m_wbytes m) (m_wtimeouts m).
 
 Definition isnil {A} (l : list A) : bool := match l with [] => true | _ => false end.
 
@@ -51,20 +58,36 @@ Definition cread (c : conn) (n : nat) : bytes * rerr * conn :=
   match c_segs c with
   | [] =>
       match c_term c with
-      | TEof => ([], EEOF, mkConn [] TEof (tick_read (c_m c) false false true))
-      | TTimeout => ([], ETimeout, mkConn [] TTimeout (tick_read (c_m c) false true false))
+      | TEof => ([], EEOF, mkConn5 [] TEof (tick_read (c_m c) false false true) (c_room c) (c_wdead c))
+      | TTimeout => ([], ETimeout, mkConn5 [] TTimeout (tick_read (c_m c) false true false) (c_room c) (c_wdead c))
       end
   | s :: r =>
       let d := firstn n s in
       let segs' := match skipn n s with [] => r | rest => rest :: r end in
-      (d, ENone, mkConn segs' (c_term c) (tick_read (c_m c) (isnil d) false false))
+      (d, ENone, mkConn5 segs' (c_term c) (tick_read (c_m c) (isnil d) false false) (c_room c) (c_wdead c))
   end.
 
-(* one Write of k bytes (never blocks, errors are ignored by every handler modelled) *)
-Definition cwrite (c : conn) (k : N) : conn :=
+(* one Write of k bytes through server.TimeoutConn: [true] if the peer took all of it; else it
+   took what it had room for, the Write waited out the write deadline and failed *)
+Definition cwrite_e (c : conn) (k : N) : conn * bool :=
   let m := c_m c in
-  mkConn (c_segs c) (c_term c)
-         (mkM (m_reads m) (m_zero m) (m_timeouts m) (m_eofs m) (m_writes m + 1) (m_wbytes m + k)).
+  let mw (wt : N) := mkM (m_reads m) (m_zero m) (m_timeouts m) (m_eofs m) (m_writes m + 1)%N (m_wbytes m + k)%N (m_wtimeouts m + wt)%N in
+  match c_room c with
+  | None => (mkConn5 (c_segs c) (c_term c) (mw 0%N) None (c_wdead c), true)
+  | Some r =>
+      if (k <=? r)%N then (mkConn5 (c_segs c) (c_term c) (mw 0%N) (Some (r - k)%N) (c_wdead c), true)
+      else (mkConn5 (c_segs c) (c_term c) (mw 1%N) (Some 0%N) (c_wdead c), false)
+  end.
+
+(* handlers that call conn.Write directly and ignore its error *)
+Definition cwrite (c : conn) (k : N) : conn := fst (cwrite_e c k).
+
+(* handlers that write through a bufio.Writer (ftp control connection, smtp textproto): the
+   first failed Flush sticks, later replies never reach the connection *)
+Definition swrite (c : conn) (k : N) : conn :=
+  if c_wdead c then c
+  else let '(c', ok) := cwrite_e c k in
+       if ok then c' else mkConn5 (c_segs c') (c_term c') (c_m c') (c_room c') true.
 
 (* termination measure: bytes still to come + segments still to come *)
 Definition weight (c : conn) : nat := length (concat (c_segs c)) + length (c_segs c).
@@ -101,11 +124,16 @@ Fixpoint io_copy (fuel : nat) (wr : bool) (c : conn) : outcome * conn :=
   | O => (OutOfFuel, c)
   | S f =>
       let '(d, e, c1) := cread c COPYSZ in
-      let c2 := match d with [] => c1 | _ => if wr then cwrite c1 (nlen d) else c1 end in
-      match e with
-      | ENone => io_copy f wr c2       (* (n, nil), also n = 0: keep going *)
-      | _ => (Returned, c2)
-      end
+      let '(c2, ok) := match d with
+                       | [] => (c1, true)
+                       | _ => if wr then cwrite_e c1 (nlen d) else (c1, true)
+                       end in
+      if ok then
+        match e with
+        | ENone => io_copy f wr c2       (* (n, nil), also n = 0: keep going *)
+        | _ => (Returned, c2)
+        end
+      else (Returned, c2)                (* the Write failed: io.Copy stops *)
   end.
 
 (* ------------------------------------------------------------------ *)
@@ -211,6 +239,8 @@ Definition discard (fuel : nat) (n : Z) (b : brd) : option brd :=
   if n <=? 0 then Some b else discard_loop fuel (Z.to_nat n) b.
 
 Definition bwrite (b : brd) (k : N) : brd := mkBr (b_buf b) (b_err b) (cwrite (b_c b) k).
+(* a reply through the handler's bufio.Writer; its length is not modelled: "some bytes" *)
+Definition bswrite (b : brd) : brd := mkBr (b_buf b) (b_err b) (swrite (b_c b) 1).
 
 (* bufio.ReadLine + textproto.Reader.ReadLine: a partial last line is returned WITHOUT
    its error (ReadSlice already cleared it); the error shows up on the next call after
@@ -660,7 +690,7 @@ Definition ftp_cmd (v6 : bool) (dial : dialmode) (s : ftp_st) (line : bytes) : f
   end.
 
 Fixpoint nwrites (k : nat) (b : brd) : brd :=
-  match k with O => b | S k' => nwrites k' (bwrite b 0) end.
+  match k with O => b | S k' => nwrites k' (bswrite b) end.
 
 Fixpoint ftp_loop (fuel : nat) (v6 : bool) (dial : dialmode) (s : ftp_st) (b : brd) : outcome * ftp_st * brd :=
   match fuel with
@@ -697,7 +727,7 @@ Definition ftp_late (o : outcome) (s : ftp_st) : res :=
   end.
 
 Definition handle_ftp_st (v6 : bool) (dial : dialmode) (fuel : nat) (c : conn) : outcome * ftp_st * brd :=
-  ftp_loop fuel v6 dial ftp_init (bwrite (new_reader c) 0).       (* 220 banner *)
+  ftp_loop fuel v6 dial ftp_init (bswrite (new_reader c)).       (* 220 banner *)
 
 Definition handle_ftp (v6 : bool) (dial : dialmode) (fuel : nat) (c : conn) : hres :=
   let '(o, s, b') := handle_ftp_st v6 dial fuel c in
@@ -744,39 +774,39 @@ Fixpoint smtp_loop (fuel : nat) (st : sstate) (i : N) (b : brd) : outcome * brd 
           match st with
           | SHello =>
               if is_cmd line c_HELO then
-                if hello_domain_ok line then smtp_loop f SLoop i (bwrite b1 0) else (Returned, bwrite b1 0)
+                if hello_domain_ok line then smtp_loop f SLoop i (bswrite b1) else (Returned, bswrite b1)
               else if is_cmd line c_EHLO then
-                if hello_domain_ok line then smtp_loop f SLoop i (nwrites 9 b1) else (Returned, bwrite b1 0)
+                if hello_domain_ok line then smtp_loop f SLoop i (nwrites 9 b1) else (Returned, bswrite b1)
               else if is_cmd line c_HELP then smtp_loop f SHello i (nwrites 2 b1)
-              else (Returned, bwrite b1 0)
+              else (Returned, bswrite b1)
           | SLoop =>
               if isnil line then smtp_loop f SLoop i b1
               else
                 let i' := (i + 1)%N in
-                if (LOOP_THRESHOLD <? i')%N then (Returned, bwrite b1 0)
-                else if is_cmd line c_MAIL then smtp_loop f SMail i' (bwrite b1 0)
-                else if is_cmd line c_STARTTLS then (Unmodelled, bwrite b1 0)             (* TLS handshake on the connection *)
-                else if is_cmd line c_RSET then smtp_loop f SLoop i' (bwrite b1 0)
+                if (LOOP_THRESHOLD <? i')%N then (Returned, bswrite b1)
+                else if is_cmd line c_MAIL then smtp_loop f SMail i' (bswrite b1)
+                else if is_cmd line c_STARTTLS then (Unmodelled, bswrite b1)             (* TLS handshake on the connection *)
+                else if is_cmd line c_RSET then smtp_loop f SLoop i' (bswrite b1)
                 else if is_cmd line c_HELP then smtp_loop f SLoop i' (nwrites 2 b1)
-                else if is_cmd line c_QUIT then (Returned, bwrite b1 0)
-                else if is_cmd line c_NOOP then smtp_loop f SLoop i' (bwrite b1 0)
+                else if is_cmd line c_QUIT then (Returned, bswrite b1)
+                else if is_cmd line c_NOOP then smtp_loop f SLoop i' (bswrite b1)
                 else if forallb (fun x => (x =? 32)%N || (x =? 13)%N || (x =? 10)%N) line then smtp_loop f SLoop i' b1
-                else smtp_loop f SLoop i' (bwrite b1 0)                                    (* 500, back to loopState *)
+                else smtp_loop f SLoop i' (bswrite b1)                                    (* 500, back to loopState *)
           | SMail =>
               if isnil line then smtp_loop f SLoop i b1
-              else if is_cmd line c_RSET then smtp_loop f SLoop i (bwrite b1 0)
-              else if is_cmd line c_RCPT then smtp_loop f SMail i (bwrite b1 0)
+              else if is_cmd line c_RSET then smtp_loop f SLoop i (bswrite b1)
+              else if is_cmd line c_RCPT then smtp_loop f SMail i (bswrite b1)
               else if is_cmd line c_BDAT then (Unmodelled, b1)
               else if is_cmd line c_DATA then (Unmodelled, b1)
               else if is_cmd line c_HELP then smtp_loop f SMail i (nwrites 2 b1)
-              else smtp_loop f SLoop i (bwrite b1 0)
+              else smtp_loop f SLoop i (bswrite b1)
           end
-      | RsOk _ _ b1 => (Returned, bwrite b1 0)                      (* errorState: "500 ..." then nil *)
+      | RsOk _ _ b1 => (Returned, bswrite b1)                      (* errorState: "500 ..." then nil *)
       end
   end.
 
 Definition handle_smtp (fuel : nat) (c : conn) : hres :=
-  let b := bwrite (new_reader c) 0 in                               (* 220 banner *)
+  let b := bswrite (new_reader c) in                               (* 220 banner *)
   let '(o, b') := smtp_loop fuel SHello 0 b in
   mkH o (b_c b') res0.
 
@@ -845,3 +875,26 @@ Fixpoint serve_queue (fixed : bool) (sched : list pact) (reqs : nat) (q : nat) (
            | PGone => if fixed then QFailed else QBlocked
            end
   end.
+
+(* ------------------------------------------------------------------ *)
+(* services/ssh/ssh-simulator.go: the payload of an "env" / "exec" channel request is decoded
+   as a list of strings by a loop over services/decoder: while Available() > 0 { String() =
+   Uint32 length (4 bytes, else the decoder's error is set and nothing is consumed), Copy(length)
+   (else the error is set); if LastError() != nil break }.  (The service itself is observed in
+   part "sweep"; this loop is logic.) *)
+Fixpoint ssh_strings (fuel : nat) (data : bytes) (acc : list bytes) : option (list bytes) :=
+  match fuel with
+  | O => None                                   (* still looping *)
+  | S f =>
+      match data with
+      | [] => Some (rev acc)
+      | _ =>
+          if (length data <? 4)%nat then Some (rev acc)          (* cut inside the length prefix *)
+          else let z := be_val (firstn 4 data) in
+               let rest := skipn 4 data in
+               if Z.of_nat (length rest) <? z then Some (rev acc)      (* cut inside the string *)
+               else let n := Z.to_nat z in ssh_strings f (skipn n rest) (firstn n rest :: acc)
+      end
+  end.
+
+Definition ssh_decode (data : bytes) : option (list bytes) := ssh_strings (S (length data)) data [].
